@@ -5,20 +5,32 @@
    a well-formed assistant (or rail-exception) message, generate never raises, and template /
    variable syntax inside delivered LLM text is present literally.                               *)
 EXTENDS Sequences, Naturals, FiniteSets, TLC, Json, IOUtils
-CONSTANTS Mode, MaxTurns, Part, Parts
+CONSTANTS Mode, MaxTurns, Part, Parts, GenFull
 
 Classes == {"ok", "empty", "blank", "comment", "prefix", "quote", "multiline", "inject", "template", "long", "unicode", "userfirst", "directive", "noop", "ctl", "dollar"}
 ClassNo(c) == CASE c = "ok" -> 0 [] c = "empty" -> 1 [] c = "blank" -> 2 [] c = "comment" -> 3 [] c = "prefix" -> 4 [] c = "quote" -> 5
                 [] c = "multiline" -> 6 [] c = "inject" -> 7 [] c = "template" -> 8 [] c = "long" -> 9 [] c = "unicode" -> 10
                 [] c = "userfirst" -> 11 [] c = "directive" -> 12 [] c = "noop" -> 13 [] c = "ctl" -> 14 [] c = "dollar" -> 15
-Modes == {"dialog", "single", "general", "multistep", "v2"}
+                [] c = "rtdo" -> 16 [] c = "rtexpr" -> 17 [] c = "rtloop" -> 18 [] c = "rthang" -> 19
+Modes == {"dialog", "single", "general", "multistep", "v2", "v2gen"}
 (* call positions (tasks) of a turn per mode *)
 Tasks(m) == CASE m = "dialog"    -> <<"generate_user_intent", "generate_next_steps", "generate_bot_message">>
               [] m = "multistep" -> <<"generate_user_intent", "generate_next_steps", "generate_bot_message">>
               [] m = "single"    -> <<"generate_intent_steps_message", "generate_bot_message">>
               [] m = "general"   -> <<"general">>
               [] m = "v2"        -> <<"generate_user_intent_from_user_action", "generate_flow_continuation">>
-TurnVecs(m) == [1..Len(Tasks(m)) -> Classes]
+              \* Colang 2.x value / flow generation: `$v = ..."instruction"`, a call of an undefined flow, `execute llm instruction`
+              [] m = "v2gen"     -> <<"generate_value_from_instruction", "generate_flow_from_name", "generate_flow_from_instructions">>
+(* well-formed Colang whose EXECUTION misbehaves (unknown subflow, failing expression, endless loop): only meaningful where
+   the answer is run as a flow, i.e. at generate_next_steps of the multi-step mode; "rthang" (a label/goto loop that never
+   returns) costs a watchdog timeout per script and is combined with well-formed answers at the other positions only *)
+RunClasses == {"rtdo", "rtexpr", "rtloop"}
+GenClasses == IF GenFull THEN {"ok", "empty", "blank", "comment", "quote", "multiline", "inject", "template", "long", "dollar", "directive", "ctl", "rtexpr"}
+              ELSE {"ok", "empty", "quote", "multiline", "inject", "template", "long", "dollar", "rtexpr"}
+PosClasses(m, i) == IF m = "multistep" /\ i = 2 THEN Classes \cup RunClasses ELSE IF m = "v2gen" THEN GenClasses ELSE Classes
+TurnVecs(m) == {v \in [1..Len(Tasks(m)) -> Classes \cup RunClasses] : \A i \in 1..Len(Tasks(m)) : v[i] \in PosClasses(m, i)}
+HangVec == <<"ok", "rthang", "ok">>
+OkVec == <<"ok", "ok", "ok">>
 \* Scripts (documentation only; too large to construct as a set for two turns)
 ScriptsDoc == UNION {{[mode |-> m, turns |-> ts] : ts \in UNION {[1..n -> TurnVecs(m)] : n \in 1..MaxTurns}} : m \in Modes}
 H(s) == LET RECURSIVE G(_, _) G(t, i) == IF t = 0 THEN 3 ELSE IF i = 0 THEN G(t - 1, IF t > 1 THEN Len(s.turns[t - 1]) ELSE 0)
@@ -38,6 +50,9 @@ Init == \/ /\ Mode = "emit" /\ k = 0
                           /\ \E v2 \in TurnVecs(m) :
                                 /\ (HV(v1) + 31 * HV(v2)) % 61 = 0
                                 /\ script = [mode |-> m, turns |-> <<v1, v2>>]
+        \/ /\ Mode = "emit" /\ k = 0
+           /\ script \in {[mode |-> "multistep", turns |-> <<HangVec>>], [mode |-> "multistep", turns |-> <<OkVec, HangVec>>],
+                          [mode |-> "multistep", turns |-> <<HangVec, OkVec>>]}
         \/ Mode = "judge" /\ k \in 1..Len(Data) /\ script = <<>>
 Spec == Init /\ [][UNCHANGED <<script, k>>]_<<script, k>>
 Emit == Mode = "emit" => PrintT(ToJson(script))
